@@ -2,6 +2,7 @@ import HpxVerif.Lemmas.PolyLemmas
 import HpxVerif.Props.C16
 import HpxVerif.Lemmas.PolyReal6
 import HpxVerif.Model.PolyExact
+import HpxVerif.Lemmas.Tightness3
 
 set_option autoImplicit false   -- an unknown identifier in a statement is an error, never a new variable
 
@@ -418,5 +419,22 @@ theorem contains_convex_new (dbg : Bool) (lls : List (ℝ × ℝ))
 example : ConvexNoPole 1 [triA, triB, triC] := tri_convex
 
 end PolygonContains
+
+
+/-! ## what is known of every reported cell (structural half of the tightness clause, every numeric instance) -/
+
+section EmitRule
+open Hpx Hpx.Hash Hpx.Proj Hpx.Cover Hpx.C2V Hpx.C2VReal Hpx.EnvelopeReal Hpx.EnvelopePolar Hpx.CellReal Hpx.TopoLift Hpx.CellExtent Hpx.Bmoc Hpx.Sph Hpx.EConeEq Hpx.Tightness Real
+
+/-- **polygon descent, emit rule** (every numeric instance, every build): every cell of the output of the descent was
+    kept for one of the three reasons of `PolyKept` -/
+theorem poly_emit_rule (cfg : Cfg) (target : Nat) (poly : Polygon α) (sortedHashs : List Nat)
+    (fuel depth hash level : Nat) (out : List Cell)
+    (h : coverRec target (polyClassifier cfg target poly sortedHashs) fuel depth hash level = some out)
+    (c : Cell) (hc : c ∈ out) : PolyKept cfg target poly sortedHashs c.depth c.hash :=
+  Hpx.Tightness.poly_emit_rule cfg target poly sortedHashs fuel depth hash level out h c hc
+
+
+end EmitRule
 
 end Hpx.C12
